@@ -3,6 +3,7 @@ import asyncio
 from datetime import timedelta
 
 from .. import assert_repo
+from ..links import ANY_LINK
 
 ID = 'C16'
 LEVEL = 'exploration'
@@ -272,7 +273,7 @@ def run_case(gen, idx, rng, tier):
         return {'evals': 1, 'nt_count': 1, 'deciding': st, 'witnesses': wit, 'sample': case}
     d_enc, d_name = _mime(rng)
     m_enc, m_name = _mime(rng)
-    desc = {'link': rng.choice(['bytes', 'messages']), 'frag': rng.choice([None, 64, 100]),
+    desc = {'link': rng.choice(ANY_LINK), 'frag': rng.choice([None, 64, 100]),
             'ka_ms': rng.choice(TD_MS + [rng.randrange(1, 10 ** 7)]),
             # lifetimes below the connection delay make the client give up before it ever connects (nothing to judge)
             'ml_ms': rng.choice([m for m in TD_MS if m >= 1000] + [rng.randrange(1000, 10 ** 7)]),
